@@ -391,3 +391,51 @@ func verifGo(f func()) {}
 func verifConnWait(cc *grpc.ClientConn, ctx context.Context, s connectivity.State) bool {
 	return false
 }
+
+// Pattern P3 for GCPMultiEndpoint: an RPC is being routed while UpdateMultiEndpoints runs on another
+// goroutine.  Whenever pickConn re-acquires gme.mu after having released it, the reconfiguration
+// runs to completion in the gap (the real UpdateMultiEndpoints, inline).
+var (
+	verifGme       *GCPMultiEndpoint
+	verifGmeArmed  bool
+	verifGmeLocks  int
+	verifGmeUpd    *GCPMultiEndpointOptions
+	verifGmeBudget int
+)
+
+func verifOnLockGme() {
+	if verifGmeBudget == 0 {
+		return
+	}
+	verifGmeBudget--
+	verifGmeArmed = false
+	verifGme.UpdateMultiEndpoints(verifGmeUpd)
+	verifGmeArmed = true
+}
+
+func VerifH_gmep3() {
+	vReset2()
+	opts := &GCPMultiEndpointOptions{
+		MultiEndpoints: map[string]*multiendpoint.MultiEndpointOptions{"default": {Endpoints: []string{"ep-a", "ep-b"}}, "read": {Endpoints: []string{"ep-c"}}},
+		Default:        "default",
+		DialFunc:       vDial,
+	}
+	gme, err := NewGCPMultiEndpoint(opts)
+	verifAssume(err == nil && gme != nil)
+	upd := &GCPMultiEndpointOptions{MultiEndpoints: map[string]*multiendpoint.MultiEndpointOptions{"default": {Endpoints: vEndpoints("upd_d", 1)}}, Default: "default"}
+	if verifBool("upd_has_read") {
+		upd.MultiEndpoints["read"] = &multiendpoint.MultiEndpointOptions{Endpoints: vEndpoints("upd_r", 1)}
+	}
+	verifGme, verifGmeUpd, verifGmeLocks, verifGmeBudget = gme, upd, 0, 1
+	name := verifChoose("ctxName", "default", "read", "nosuch")
+	verifResetLocks()
+	verifGmeArmed = true
+	cc := vRoute(gme, name, true)
+	verifGmeArmed = false
+	verifReach("routed")
+	g := vGhost(cc)
+	verifAssert(g != nil, "C15,C16: RPC routed concurrently with a reconfiguration goes through no pool")
+	// the pool the RPC goes through was current for its MultiEndpoint before or after the update: it is
+	// a pool that existed at some point; it must not be one that was never configured for that name
+	verifObserve("interfered", uint64(1-verifGmeBudget))
+}
